@@ -48,7 +48,7 @@ def scenarios(rep, tier, seed):
         scns.append(scn)
     scns += S.extreme_unit_scenarios(random.Random(seed * 1000003 + 303), 120 if thorough else 30, nq=6)
     scns += S.prefile_scenarios(random.Random(seed * 1000003 + 304), 90 if thorough else 24, nq=6)
-    scns += S.mixed_dtype_scenarios(random.Random(seed * 1000003 + 305), 80 if thorough else 20, nq=6)
+    scns += S.mixed_dtype_scenarios(random.Random(seed * 1000003 + 305), 160 if thorough else 40, nq=24)
     scns += S.reload_scenarios(random.Random(seed * 1000003 + 306), 120 if thorough else 32, kind="sup")
     scns += S.reload_scenarios(random.Random(seed * 1000003 + 307), 40 if thorough else 8, kind="semi")
     scns += S.bootstrap_scenarios(random.Random(seed * 1000003 + 308), 80 if thorough else 20, nq=6)
